@@ -27,7 +27,7 @@ REMOVING = ("delete", "shorten", "keys-subset", "unknown-suite")
 
 def configs(tier, seed):
     out = []
-    nmax = 7 if tier == "quick" else 9
+    nmax = 7 if tier == "quick" else 8
     for n in range(1, nmax + 1):
         for ctx_ in ("alone", "after-quic-same-address", "after-quic-other-address", "inside-quic0-other-address"):
             if ctx_ != "alone" and (n > (5 if tier == "quick" else 6) or (tier == "quick" and n not in (1, 3, 5))):
@@ -43,7 +43,7 @@ def configs(tier, seed):
     # a Retry-shaped datagram (long header type 3, version 1) between other hosts before / after a healthy QUIC connection
     for ctx_ in ("before-quic-other-address", "after-quic-other-address"):
         out.append({"harness": "udp", "name": "udp-retry-%s" % ctx_, "n": None, "context": ctx_, "retry_shaped": True})
-    for lens in ([(3,), (6,), (5, 3)] if tier == "quick" else [(1,), (4,), (5,), (6,), (9,), (5, 3), (3, 5), (6, 6)]):
+    for lens in ([(3,), (6,), (5, 3)] if tier == "quick" else [(1,), (4,), (5,), (6,), (5, 3), (3, 5)]):
         out.append({"harness": "tcp", "name": "tcp-" + "+".join(str(x) for x in lens), "lens": list(lens)})
     for v in TLS_VICTIMS:
         for f in FAULTS:
@@ -62,8 +62,8 @@ def configs(tier, seed):
             out.append({"harness": "fault", "name": "fault-%s-delete-inside-record-part%d" % (v, part), "victim": v, "fault": "delete", "part": part, "parts": 4, "tier": tier,
                         "split3": True})
     for f in FAULTS[:-1]:
-        if tier == "quick" and f in ("keys-wrong", "overwrite"):
-            continue       # wrong header-protection keys / damaged first bytes fork over packet-number length and key phase per packet: thorough tier only
+        if f in ("keys-wrong", "overwrite"):
+            continue       # wrong header-protection keys / damaged first bytes fork over packet-number length and key phase per packet: hours per configuration
         if f in ("delete", "shorten", "overwrite"):
             for part in range(4):
                 out.append({"harness": "fault", "name": "fault-quic-%s-part%d" % (f, part), "victim": "quic", "fault": f, "part": part, "parts": 4, "tier": tier})
@@ -73,11 +73,11 @@ def configs(tier, seed):
 
 
 def bounds(tier):
-    return {"udp": "1..%d arbitrary bytes (every value), alone / after a complete QUIC connection from the same or another address / between the last datagrams of a QUIC connection whose client uses a zero-length connection id, from other endpoints (the connection's export must not change)" % (7 if tier == "quick" else 10),
-            "tcp": "arbitrary bytes to port 443 in one or two segments of <= 6 (thorough 9) bytes",
+    return {"udp": "1..%d arbitrary bytes (every value), alone / after a complete QUIC connection from the same or another address / between the last datagrams of a QUIC connection whose client uses a zero-length connection id, from other endpoints (the connection's export must not change)" % (7 if tier == "quick" else 8),
+            "tcp": "arbitrary bytes to port 443 in one or two segments of <= 6 bytes",
             "fault": "victims %s and QUIC (0x1301); faults %s; position of the deleted/shortened/overwritten packet and byte solver-chosen "
-                     "(overwrite: payload byte 5 or the last byte (thorough: also 4, 9, middle) of any packet xor 0x01/0xff (thorough: also 0x40/0x80))" % (sorted(TLS_VICTIMS), FAULTS),
-            "outside": "arbitrary UDP payloads longer than the bound; faults on the bystander; several faults at once"}
+                     "(overwrite: payload byte 5 or the last byte (thorough: also 9) of any packet xor 0x01/0xff (thorough: also 0x80))" % (sorted(TLS_VICTIMS), FAULTS),
+            "outside": "arbitrary UDP payloads longer than the bound; faults on the bystander; several faults at once; wrong keys and overwritten bytes for the QUIC victim (fork over packet-number length and key phase per packet)"}
 
 
 def _positions(cfg, n):
@@ -85,7 +85,7 @@ def _positions(cfg, n):
     encrypted record into a 'handshake' record makes the ciphertext be parsed as a ServerHello, which forks over every suite id,
     extension type and length the free ciphertext bytes can spell."""
     if cfg.get("tier") == "thorough":
-        return sorted({4, 5, 9, n // 2, n - 1} & set(range(3, n))) or [n - 1]
+        return sorted({5, 9, n - 1} & set(range(3, n))) or [n - 1]
     return sorted({5, n - 1} & set(range(3, n))) or [n - 1]
 
 
@@ -104,7 +104,7 @@ def _fault_units(cfg, units):
 
 
 def _masks(cfg):
-    return [0x01, 0x40, 0x80, 0xFF] if cfg.get("tier") == "thorough" else [0x01, 0xFF]
+    return [0x01, 0x80, 0xFF] if cfg.get("tier") == "thorough" else [0x01, 0xFF]
 
 
 def _bystander(src_prefix="y."):
